@@ -105,3 +105,13 @@ package encryption
 //@ ensures[random-source-failure-is-an-error] ret1(io.ReadFull) != nil ==> ret1 != nil && ret0 == ""
 //@ ensures[verifier-is-the-unpadded-url-safe-encoding-of-those-bytes] ret1 == nil ==> ret1(io.ReadFull) == nil
 //@     && ret0 == b64enc(ret(WithPadding), bytes(data)) && recv(WithPadding) == deref(base64.URLEncoding) && arg(WithPadding, 1) == base64.NoPadding
+
+// ------------------------------------------------------------------ C13 / C19 / C02: cipher constructors give a cipher or an error
+//@ func NewGCMCipher
+//@ prop C13 C19 C02
+//@ ensures[a-cipher-or-an-error] (ret1 == nil ==> ret0 != nil) && (ret1 != nil ==> ret0 == nil)
+
+//@ func NewCFBCipher
+//@ prop C13 C19 C02
+//@ ensures[a-cipher-or-an-error] (ret1 == nil ==> ret0 != nil) && (ret1 != nil ==> ret0 == nil)
+
